@@ -9,7 +9,11 @@
 (* (rejected) or the predicted file name s (output), and rt = the          *)
 (* camel/snake round trip is promised.  The template list is printed once  *)
 (* (header line) together with the parse the specification made of it      *)
-(* (used by the driver only to name the class of a disagreement).          *)
+(* (used by the driver only to name the class of a disagreement) and with  *)
+(* `via` - how the driver has to hand the templates over: "direct" to      *)
+(* FileNamingFormat, "config" through config.NewConfig as the generators.  *)
+(* sn / cm = the snake / camel form where the conventional conversion is   *)
+(* defined (d = true).                                                     *)
 (*                                                                         *)
 (* Templates is bound by the configuration to TemplateList, the product of *)
 (* the given prefixes, spellings of the two words, separators and suffixes *)
@@ -27,17 +31,33 @@ Casings(w) == {[i \in 1..Len(w) |-> IF i \in U THEN Up(w[i]) ELSE Low(w[i])] : U
 ProductTemplates == {p \o g \o t \o d \o s : p \in TplPrefixes, g \in GoForms, t \in TplThroughs, d \in DesForms, s \in TplSuffixes}
 TemplateList == SetToSeq(ProductTemplates \cup Extra)
 
-Describe(t) == LET p == Parse(t)
-               IN IF p.valid THEN [t |-> t, valid |-> TRUE, gs |-> p.gs, ds |-> p.ds]
-                  ELSE [t |-> t, valid |-> FALSE, why |-> p.why]
+\* ws: where the template has white space that a trimming hand-over would lose (read by checks/c20.py for its
+\* vacuity guard and by the driver to name the class of a disagreement)
+Outer(t) == IF t = <<>> THEN "none"
+            ELSE IF IsBlank(t) THEN "blank"
+            ELSE IF t[1] \in WhiteSpace /\ t[Len(t)] \in WhiteSpace THEN "both"
+            ELSE IF t[1] \in WhiteSpace THEN "lead"
+            ELSE IF t[Len(t)] \in WhiteSpace THEN "trail"
+            ELSE "no"
 
-ASSUME PrintT(ToJson([templates |-> [k \in 1..Len(Templates) |-> Describe(Templates[k])]]))
+Describe(k) == LET t == Templates[k]
+                   p == Parse(Effective(Templates[k]))
+               IN IF p.valid THEN [t |-> t, valid |-> TRUE, gs |-> p.gs, ds |-> p.ds, ws |-> Outer(t)]
+                  ELSE [t |-> t, valid |-> FALSE, why |-> p.why, ws |-> Outer(t)]
+
+ASSUME Via \in {"direct", "config"}
+ASSUME PrintT(ToJson([templates |-> [k \in 1..Len(Templates) |-> Describe(k)], via |-> Via]))
 
 \* what the identifier covers (read by checks/c20.py for its vacuity guard, not by the driver): a
 \* digit-led word in first position / in a later position
 Covers(s) == LET ws == Words(s)
              IN <<Len(ws) >= 1 /\ DigitLed(ws[1]), \E n \in 2..Len(ws) : DigitLed(ws[n])>>
 
-Emit == Len(id) >= EmitFrom => PrintT(ToJson([id |-> out.id, n |-> out.names, rt |-> out.rt, dw |-> Covers(id)]))
+\* ... an upper-case letter after a letter whose lower-case form is longer / after a byte that is no UTF-8
+Longer(s) == <<\E i \in 1..Len(s) : s[i] \in {"Ax", "Tx"} /\ \E j \in (i + 1)..Len(s) : IsUpperU(s[j]),
+               \E i \in 1..Len(s) : s[i] \in InvalidBytes /\ \E j \in (i + 1)..Len(s) : IsUpperU(s[j])>>
+
+Emit == Len(id) >= EmitFrom => PrintT(ToJson([id |-> out.id, n |-> out.names, rt |-> out.rt, sn |-> out.sn, cm |-> out.cm,
+                                               dw |-> Covers(id), lg |-> Longer(id)]))
 
 =============================================================================
